@@ -350,6 +350,7 @@ func runC20(c *Check, w *World) {
 		}
 	}
 
+	checkDigitsInt(c, w, tb, "R20.4")
 	// ---- R20.3 windows agree -------------------------------------------------------------------------
 	vw := w.Func(OtpPath, "ValidateOTPWasm")
 	isStep := func(cl *ssa.Call) bool { return vw != nil && cl.Call.StaticCallee() == vw }
